@@ -739,6 +739,18 @@ class Body:
                 break
         if o is None:
             o = Origin('unknown')
+        # look through is_ok/is_err/is_some/is_none: relabel the bool edges with the variant
+        variant_of_bool = None
+        if o.kind == 'call' and o.args and mapping is None:
+            last = o.callee.split('::')[-1]
+            owner = o.callee.split('::')[-2] if '::' in o.callee else ''
+            tbl = {('Result', 'is_ok'): ('Ok', 'Err'), ('Result', 'is_err'): ('Err', 'Ok'),
+                   ('Option', 'is_some'): ('Some', 'None'), ('Option', 'is_none'): ('None', 'Some')}
+            if (owner, last) in tbl:
+                variant_of_bool = tbl[(owner, last)]
+                o = o.args[0]
+                while o.kind == 'ref' and not getattr(o, 'via', None):
+                    o = o.base
         # look through Try::branch: o is 'ref' via Try::branch with base = arg
         via_try = False
         oo = o
@@ -759,6 +771,8 @@ class Body:
                 b = (v != 0)
                 if negate:
                     b = not b
+                if variant_of_bool is not None:
+                    return variant_of_bool[0] if b else variant_of_bool[1]
                 return 'true' if b else 'false'
             return str(v)
         seen_vals = set()
